@@ -51,7 +51,7 @@ def simple(engine, configs, quick, thorough, args=None):
 PLAN["C03"] += simple("layout", [("full", "dev"), ("nofin", "dev"), ("min", "release")], 4000, 150000)
 PLAN["C13"] += simple("layout", [("full", "dev"), ("min", "release")], 4000, 150000)
 PLAN["C15"] = simple("policy", [("full", "dev"), ("full", "release"), ("default", "dev"), ("noauto", "dev")], 3000, 60000)
-PLAN["C16"] = simple("limits", [("full", "dev"), ("full", "release"), ("nofin", "dev"), ("default", "release")], 120, 3000)
+PLAN["C16"] = simple("limits", [("full", "dev"), ("full", "release"), ("nofin", "dev"), ("default", "release")], 400, 6000)
 PLAN["C17"] = simple("containers", [("full", "dev"), ("full", "release"), ("default", "dev")], 4000, 120000)
 PLAN["C20"] = simple("fwd", [("full", "release"), ("min", "release"), ("full", "dev")], 20000, 500000) + \
     simple("layout", [("full", "dev"), ("min", "release"), ("full", "release")], 4000, 150000)
@@ -72,6 +72,11 @@ def g2(config, profile, shards, qdepth, tdepth, faults=0):
              "quick": {"depth": qdepth}, "thorough": {"depth": tdepth}} for k in range(shards)]
 
 
+# long histories (160 operations): fewer, bigger cases
+PLAN["C01"] += heap("long", 1, [("full", "dev"), ("nofin", "release")], quick=1500, thorough=40000)
+PLAN["C02"] += heap("long", 0, [("full", "release"), ("default", "dev")], quick=1500, thorough=40000)
+PLAN["C04"] += heap("long", 0, [("full", "dev")], quick=1500, thorough=40000)
+PLAN["C11"] += heap("long", 0, [("full", "dev"), ("nofin", "dev")], quick=1500, thorough=40000)
 PLAN["C01"] += g2("full", "dev", 4, 4, 5) + g2("nofin", "release", 2, 4, 5)
 PLAN["C02"] += g2("full", "release", 4, 4, 5)
 PLAN["C04"] += g2("full", "dev", 4, 4, 5)
@@ -86,28 +91,33 @@ PLAN["C18"] = [{"engine": "derive", "config": "default", "profile": "dev", "args
 PLAN["C19"] = simple("threads", [("full", "dev"), ("full", "release"), ("nofin", "dev")], 150, 6000) + \
     simple("teardown", [("full", "dev"), ("full", "release"), ("default", "dev"), ("min", "release")], 150, 4000)
 
+# the counter-limit walks also decide the count statements of C04 / C09 and the upgrade statement of C08 at the boundary values
+PLAN["C04"] += simple("limits", [("full", "release"), ("default", "dev")], 400, 6000)
+PLAN["C09"] += simple("limits", [("full", "dev"), ("nofin", "release")], 400, 6000)
+PLAN["C08"] += simple("limits", [("full", "dev"), ("full", "release")], 400, 6000)
+
 LEVEL = {"C07": "fault_enumeration"}
 
 RULES = {
-    "C01": "proptest-generated heap programs (<=40 ops over Node objects; profile 'general' with up to 2 injected callback panics, plus profile 'resurrection'), each run fault-free and then with faults placed relative to the fault-free callback counts. Non-trivial: a collector call dropped >=1 object while an object that had earlier lost a (non-last) pointer stayed program-reachable, and a further program operation ran afterwards. Distinct by FNV hash of the executed case (ops + fault plan).",
+    "C01": "proptest-generated heap programs (<=40 ops over Node objects; profile 'general' with up to 2 injected callback panics, plus profile 'resurrection', plus profile 'long' with <=160 ops), each run fault-free and then with faults placed relative to the fault-free callback counts. Non-trivial: a collector call dropped >=1 object while an object that had earlier lost a (non-last) pointer stayed program-reachable, and a further program operation ran afterwards. Distinct by FNV hash of the executed case (ops + fault plan).",
     "C02": "panic-free proptest heap programs (profile 'garbage'); quiescent collection loop at the end with handles held and again after releasing every root. Non-trivial: the collector reclaimed an object lying on a cycle of the shadow graph that had been traced by an earlier collection call or un-buffered (clone/mark_alive) before. Distinct by case hash.",
     "C03": "proptest heap programs with the tracking allocator's rules on. Non-trivial: the case released >=1 allocation through the collector and >=1 through the reference-count path or try_unwrap. Distinct by case hash.",
-    "C04": "proptest heap programs; exact shadow strong counts after every operation. Non-trivial: in a call without any collection >=2 objects were reclaimed by the reference-count path (a cascade) and one of them had lost a pointer before or had been traced by an earlier collection. Distinct by case hash.",
+    "C04": "proptest heap programs (profiles 'general' and 'long'); exact shadow strong counts after every operation; plus the counter-limit walks of C16 (strong count after every clone/upgrade/drop at and around 16382 pointers, including refused operations). Non-trivial: in a call without any collection >=2 objects were reclaimed by the reference-count path (a cascade) and one of them had lost a pointer before or had been traced by an earlier collection. Distinct by case hash.",
     "C05": "proptest heap programs with finalizer-heavy profile. Non-trivial: >=2 finalize calls inside one collector call, or a reference-count-path finalize of an object that had been buffered. Distinct by case hash.",
     "C06": "proptest heap programs whose finalizers resurrect (clone of a field, upgrade of a weak, store into a live object). Non-trivial: a collector call both resurrected >=1 finalized object and dropped >=1 other object, and the resurrected object was later read through a program handle. Distinct by case hash.",
     "C07": "crash-point enumeration (engine g4): every proptest-generated program (profiles general, weak, cleaners, cyclic, finalizers, nesting) is executed fault-free, then once per (callback kind in {trace entry, trace exit, finalize, drop, cleaning action, new_cyclic closure}, invocation index k) for ALL k up to the fault-free invocation count (capped at 64 per kind; coverage.programs_fully_enumerated counts the programs below the cap), then with 8 sampled pairs of successive faults; the rest of the program and the epilogue (2 collections, release of every root, 2 collections, upgrade of every weak handle) run after each fault. Plus proptest-sampled double faults (engine g1). Non-trivial: after a fault, a later call traced an object that had already been traced before the fault. Distinct by FNV hash of (program, fault plan).",
-    "C08": "proptest heap programs with weak-heavy profile (upgrades at top level, in finalizers, destructors, cleaning actions). Non-trivial: an upgrade was attempted from a destructor or cleaning action while a collector was running, or the case saw both a successful and a failing upgrade. Distinct by case hash.",
-    "C09": "proptest heap programs over few objects with count-heavy profile; Cc::weak_count, Weak::weak_count, Weak::strong_count checked after every operation. Non-trivial: a weak handle was queried after its value had been released. Distinct by case hash.",
+    "C08": "proptest heap programs with weak-heavy profile (upgrades at top level, in finalizers, destructors, cleaning actions); plus the counter-limit walks of C16 on live and on released allocations (upgrade must succeed below the limit on a live value and never on a released one, also with 32767 Weak pointers outstanding). Non-trivial: an upgrade was attempted from a destructor or cleaning action while a collector was running, or the case saw both a successful and a failing upgrade. Distinct by case hash.",
+    "C09": "proptest heap programs over few objects with count-heavy profile; Cc::weak_count, Weak::weak_count, Weak::strong_count checked after every operation; plus the counter-limit walks of C16 (weak count exact at and around 32767 Weak pointers, on live and on released allocations, including refused clones/downgrades). Non-trivial: a weak handle was queried after its value had been released. Distinct by case hash.",
     "C10": "proptest heap programs with cleaner profile. Non-trivial: a cleaner with >=2 actions, >=1 of them already run by clean(), whose owner was reclaimed by the collector. Distinct by case hash.",
     "C11": "proptest heap programs; buffer walk, cached size, byte accounting after every operation. Non-trivial: buffered_objects_count() changed >=4 times through >=3 different kinds of operation. Distinct by case hash.",
     "C12": "proptest heap programs with nesting profile. Non-trivial: a collection was started from a callback of a plain reference-count drop, or a collection was requested from a collector callback. Distinct by case hash.",
     "C13": "proptest heap programs with try_unwrap-heavy profile. Non-trivial: an Ok on an object that had lost a pointer before or had weak pointers, and an Err in the same case. Distinct by case hash.",
     "C15": "proptest allocation/release workloads (leaves of 9 size classes up to 64 KiB, garbage and live rings, releases, buffering, explicit collections, configuration changes at arbitrary points; percent from {0, 1e-9, 0.05, 0.1, 0.5, 0.9, 0.99, 1}; buffered threshold None or 1..8). Non-trivial: the byte threshold both grew and shrank during the workload and >=1 creation happened within 4200 bytes of the trigger boundary. Distinct by FNV hash of the workload.",
-    "C16": "proptest cases: object variant (created inside a finalizer or not, self-cycle or not, side record or not) x route to the limit (clone / upgrade / mixed) x start offset 0..3 below 16382 (strong) and 32767 (weak) x a 1..40 step walk of clone/upgrade/downgrade/Weak::clone/drop/Weak::drop. Non-trivial: the walk hit a limit and either moved away and came back, or hit limits twice. Distinct by case hash.",
-    "C17": "proptest cases: container shape (tuples 1..12, arrays 0/1/2/3/8/32, Vec 0..40, boxed slice, Box, Option, Result, RefCell free/borrowed/mutably borrowed, ManuallyDrop, AssertUnwindSafe, Box<dyn Trace>, 10 two-level nestings, a tuple with Weak/Cleaner/Cleanable/PhantomData/scalars) x which positions own a Cc x which one carries the cycle back to the owner x which targets have an extra program handle. Non-trivial: the cycle routed through the chosen position was reclaimed. Distinct by case hash.",
+    "C16": "proptest cases: object variant (created inside a finalizer or not, self-cycle or not, side record or not) x route to the limit (clone / upgrade / mixed) x start offset 0..3 below 16382 (strong) and 32767 (weak) x a 1..40 step walk of clone/upgrade/downgrade/Weak::clone/drop/Weak::drop; in a quarter of the cases every Cc is released first (by the counter or, for the self cycle, by the collector) and the walk runs on the released allocation with up to 32767 Weak pointers. Non-trivial: the walk hit a limit and either moved away and came back, or hit limits twice. Distinct by case hash.",
+    "C17": "proptest cases: container shape (tuples 1..12, arrays 0/1/2/3/8/32, Vec 0..40, boxed slice, Box, Option, Result, RefCell free/borrowed/mutably borrowed, ManuallyDrop, AssertUnwindSafe, Box<dyn Trace>, 10 two-level nestings, a tuple with Weak/Cleaner/Cleanable/PhantomData/scalars, and EVERY composition of depth 1..3 of 15 wrappers {Vec, [T;2], Box<[T]>, Box, Option, Result::Ok, Result::Err, (T,), (u32,T), (T,T), RefCell, ManuallyDrop, AssertUnwindSafe, [T;1], Box<dyn Trace>} around a probe: the 3 615 compositions are enumerated as a seed-independent grid (3 cases each) before the random cases) x which positions own a Cc x which one carries the cycle back to the owner x which targets have an extra program handle. Non-trivial: the cycle routed through the chosen position was reclaimed. Distinct by case hash.",
     "C18": "seeded grammar of type definitions (structs unit/tuple/named with 0..8 fields, enums with 1..4 variants of mixed kinds, #[rust_cc(ignore)] on fields and variants, a type parameter, nested std containers; ignored fields alternate between a probe and a type without Trace); 60 types + 20 Drop-conflict probes per quick run (600 + 100 thorough), compiled with the real derive macro and executed. Non-trivial: a type definition with >=1 ignored and >=1 traced probe position. Distinct by hash of the definition.",
     "C19": "(a) proptest: 2..16 threads, one generated panic-free heap program per thread, yields at generated operation boundaries, result compared with the same program run alone; (b) proptest thread-teardown scenarios run in child processes (thread-locals with Ccs/Weaks/cleanables registered before or after the collector's thread-local; unique, buffered, cyclic objects; garbage cycles buffered at exit). Non-trivial: (a) >=2 threads were inside collect_cycles() at the same time (shared atomic counter); (b) a scenario with objects in thread-locals or garbage buffered at exit. Distinct by case hash.",
-    "C20": "(a) proptest value pairs over i32, u8, f64 and f32 (NaN, +-0, infinities), String, (i32, String), Option<i64>: every comparison operator, cmp, hash (SipHash and FNV), Debug, Display, Default on Cc<T> against T; (b) layout grid 13 alignments (1..4096) x 8 sizes (0..4096) x linked/plain payloads with generated programs: address laws after every operation. Non-trivial: pairs with x != y (trait half) / programs of >=3 operations (address half). Distinct by case hash.",
+    "C20": "(a) proptest value pairs over i32, u8, f64 and f32 (NaN, +-0, infinities), String, (i32, String), Option<i64>: every comparison operator, cmp, hash (SipHash and FNV), Debug and Display under 10 + 12 format specifications (width, fill, alignment, sign, alternate, zero padding, precision) including a payload that prints the formatter's options, Default on Cc<T> against T; (b) layout grid 13 alignments (1..4096) x 8 sizes (0..4096) x linked/plain payloads with generated programs: address laws after every operation. Non-trivial: pairs with x != y (trait half) / programs of >=3 operations (address half). Distinct by case hash.",
     "C14": "proptest heap programs with new_cyclic-heavy profile and faults. Non-trivial: a new_cyclic call during which a collection ran, or whose closure panicked after saving a weak clone. Distinct by case hash.",
 }
 
